@@ -12,7 +12,7 @@ import itertools
 import json
 import os
 
-from .common import BaseHooks, V, ref_request, sub_rng
+from .common import BaseHooks, V, rand_clock, ref_request, sub_rng
 
 PROP = "C14"
 WORLDS_QUICK = ("pkg", "flat")
@@ -631,7 +631,7 @@ def gen_random(seed, world, tier):
                 # the client reuses one buffer for its matrices (refilled in place between calls)
                 st["args"] = [dict(st["args"][0], buf=f"A{oi}")] + st["args"][1:]
         if R.random() < 0.35:
-            st["clock"] = R.choice(CLOCK_SCRIPTS[1:])
+            st["clock"] = R.choice(CLOCK_SCRIPTS[1:]) if R.random() < 0.5 else rand_clock(R)
         if R.random() < 0.15 and st.get("fn") not in _inplace():
             st["readonly"] = True
         if pos in fault_slots and pos < length - 1:
@@ -928,6 +928,56 @@ def _inplace():
     return INPLACE_KERNELS
 
 
+def interpreter_sample(jobs, tier):
+    """Jobs executed once more in two fresh interpreters that differ only in PYTHONHASHSEED: two
+    3-call histories per solver configuration and a slice of the random histories (first world)."""
+    w0 = jobs[0]["trace"]["world"] if jobs else "pkg"
+    out = []
+    for j in jobs:
+        t = j["trace"]
+        if t["world"] != w0:
+            continue
+        if t.get("mode") == "exhaustive" and tuple(t.get("seq") or ()) in ((0, 1, 2), (2, 3, 1)):
+            out.append(j)
+    rnd = [j for j in jobs if j["trace"].get("mode") == "random" and j["trace"]["world"] == w0]
+    out += rnd[: (40 if tier == "quick" else 400)]
+    # budget-limited solves of a larger problem per configuration (an unconverged iterate shows
+    # every bit of what the random sketches were) and one call of every catalogue function
+    big = PS(9, 6, [1.0, 0.8, 0.6, 0.45, 0.3, 0.2], 77)
+    for ci, (cfgname, cls_, cfg_, meth_, pool_) in enumerate(CONFIGS):
+        cfg2 = dict(cfg_)
+        if "max_iter" in cfg2:
+            cfg2["max_iter"] = 3
+        if cfg2.get("preconditioner_rank"):
+            cfg2["preconditioner_rank"] = 3
+        if cfgname.startswith("gmres"):
+            args = [SQ(6, 78), G(6, 1, 79)]
+        elif cfgname.startswith("deep"):
+            args = list(pool_[2])
+        else:
+            args = [big]
+        seed = 9100000 + ci
+        out.append({"seed": seed, "trace": {"prop": PROP, "seed": seed, "world": w0, "mode": "xinterp", "cfgname": cfgname,
+                                            "seq": ["big"], "steps": [{"k": "rng", "op": "seed", "v": 5},
+                                                                       {"k": "new", "obj": "s0", "cls": cls_, "cfg": cfg2},
+                                                                       {"k": "call", "obj": "s0", "meth": meth_, "args": args,
+                                                                        "client": 0, "cfgname": cfgname}]}})
+    R = sub_rng(9200000, "xinterp")
+    steps = [{"k": "rng", "op": "seed", "v": 6}]
+    for ci, (name, gen, _w) in enumerate(CATALOGUE):
+        args, kwargs = gen(R)
+        st = {"k": "fn", "fn": name, "args": args, "client": 0}
+        if kwargs:
+            st["kwargs"] = kwargs
+        steps.append(st)
+        if len(steps) >= 12 or ci == len(CATALOGUE) - 1:
+            seed = 9200000 + ci
+            out.append({"seed": seed, "trace": {"prop": PROP, "seed": seed, "world": w0, "mode": "xinterp",
+                                                "cfgname": "catalogue", "seq": [ci], "steps": steps}})
+            steps = [{"k": "rng", "op": "seed", "v": 6}]
+    return out
+
+
 def cross_check(results):
     """Oracle 6 (import identity): the same trace must give the same per-step digests in
     every import world.  Returns [(result, violation)]."""
@@ -993,7 +1043,7 @@ def violation_target(trace, v):
 
 
 def signature(trace, result):
-    if trace.get("mode") in ("exhaustive", "recovery", "buffer", "offtype"):
+    if trace.get("mode") in ("exhaustive", "recovery", "buffer", "offtype", "xinterp"):
         return f"{trace['mode']}:{trace['cfgname']}:{trace['seq']}:{trace['world']}"
     sig = []
     for s in trace["steps"]:
